@@ -19,7 +19,7 @@ META = {
 def run(ctx):
     return sworld.run_static(
         ctx, "C01", 1,
-        variants=[{"impl": "compact", "cores": 1}, {"impl": "compact", "cores": 3}],
+        variants=[{"impl": "compact", "cores": 1, "max": (45, 600)}, {"impl": "compact", "cores": 3, "max": (15, 200)}],
         sections=["lookup", "each", "problems", "build", "observe"],
         rule="every source TLC enumerates for scenario 1 built as a compact index with 1 and 3 goroutines; "
              "distinct = (cores, source)",
